@@ -18,6 +18,37 @@ import (
 // the bodies of (*HINFO).parse / (*ISDN).parse and of (*UINFO).parse as src() prints them (white space removed), with the
 // type name in the error text and the field names left open; any other change makes the type "other"
 var pairBodyRe = regexp.MustCompile(`^\{chunks,e:=endingToTxtSlice\(c,"bad([A-Z0-9]+)Fields"\)ife!=nil\{returne\}ifln:=len\(chunks\);ln==0\{returnnil\}elseifln==1\{ifout:=strings\.Fields\(chunks\[0\]\);len\(out\)>1\{chunks=out\}else\{chunks=append\(chunks,""\)\}\}rr\.([A-Za-z]+)=chunks\[0\]rr\.([A-Za-z]+)=strings\.Join\(chunks\[1:\],""\)returnnil\}$`)
+var nodeStringRe = regexp.MustCompile(`^\{s:=rr\.Hdr\.String\(\)\+strconv\.Itoa\(int\(rr\.([A-Za-z0-9]+)\)\)node:=fmt\.Sprintf\("%0\.16([xX])",rr\.([A-Za-z0-9]+)\)s\+=""\+node\[0:4\]\+":"\+node\[4:8\]\+":"\+node\[8:12\]\+":"\+node\[12:16\]returns\}$`)
+
+var parseErrRe = regexp.MustCompile(`&ParseError\{err:"[^"]*",lex:l\}`)
+
+// euiBody: (*EUI48).parse (6 groups) / (*EUI64).parse (8 groups) as src() prints it, error texts replaced
+func euiBody(g int) string {
+	n := 2 * g
+	return strings.Join(strings.Fields(fmt.Sprintf(`{l, _ := c.Next()
+	if len(l.token) != %d || l.err {
+		return &ParseError{}
+	}
+	addr := make([]byte, %d)
+	dash := 0
+	for i := 0; i < %d; i += 2 {
+		addr[i] = l.token[i+dash]
+		addr[i+1] = l.token[i+1+dash]
+		dash++
+		if l.token[i+1+dash] != '-' {
+			return &ParseError{}
+		}
+	}
+	addr[%d] = l.token[%d]
+	addr[%d] = l.token[%d]
+	i, e := strconv.ParseUint(string(addr), 16, %d)
+	if e != nil {
+		return &ParseError{}
+	}
+	rr.Address = i
+	return slurpRemainder(c)}`, 3*g-1, n, n-2, n-2, 3*g-3, n-1, 3*g-2, 8*g)), "")
+}
+
 var firstBodyRe = regexp.MustCompile(`^\{s,e:=endingToTxtSlice\(c,"bad([A-Z0-9]+)([A-Za-z]+)"\)ife!=nil\{returne\}ifln:=len\(s\);ln==0\{returnnil\}rr\.([A-Za-z]+)=s\[0\]returnnil\}$`)
 
 type tstep struct {
@@ -25,6 +56,8 @@ type tstep struct {
 	Bits  int
 	Field string
 	Upper bool // printer upper-cases the field
+	Group int  // hexgroups: digits per group
+	Sep   int  // hexgroups: the separator octet
 }
 
 func (s tstep) lean() string {
@@ -55,6 +88,12 @@ func (s tstep) lean() string {
 		return ".txtFirst"
 	case "octet":
 		return ".octet"
+	case "hexgroups":
+		return fmt.Sprintf(".hexGroups %d %d %d %v", s.Bits, s.Group, s.Sep, s.Upper)
+	case "euitok":
+		return fmt.Sprintf(".euiTok %d", s.Bits)
+	case "nodeid":
+		return ".nodeId"
 	case "tokstr":
 		return ".tokStr"
 	case "blank":
@@ -104,6 +143,13 @@ func (p *pkgInfo) parsePlanOf(fd *ast.FuncDecl, depth int) ([]tstep, bool) {
 		if m := firstBodyRe.FindStringSubmatch(body); m != nil && strings.HasSuffix(m[1]+m[2], m[3]) {
 			return []tstep{{Kind: "txtfirst", Field: m[3]}}, true
 		}
+		// (*EUI48).parse / (*EUI64).parse: the error texts aside, the body must be the expected one
+		norm := parseErrRe.ReplaceAllString(body, "&ParseError{}")
+		for _, g := range []int{6, 8} {
+			if norm == euiBody(g) {
+				return []tstep{{Kind: "euitok", Bits: g, Field: "Address"}, {Kind: "slurp"}}, true
+			}
+		}
 	}
 	var out []tstep
 	uintVar, uintErr, uintBits := "", "", 0 // the last ParseUint: value variable, error variable, width
@@ -111,6 +157,7 @@ func (p *pkgInfo) parsePlanOf(fd *ast.FuncDecl, depth int) ([]tstep, bool) {
 	endVar, endErr, endKind := "", "", ""   // the last endingToString / endingToTxtSlice
 	rawTok := ""                            // field that takes the raw token (after an `if l.err` check)
 	strTok := ""                            // field that takes the token after an `if l.value != zString` check
+	nodeVar, nodeErr := "", ""              // the last stringToNodeID: value variable, error variable
 	lhsNames := func(s *ast.AssignStmt) []string {
 		var ns []string
 		for _, l := range s.Lhs {
@@ -145,6 +192,11 @@ func (p *pkgInfo) parsePlanOf(fd *ast.FuncDecl, depth int) ([]tstep, bool) {
 					endVar, endErr, endKind = ns[0], ns[1], "endstr"
 					continue
 				}
+				if c, ok := isCall(s.Rhs[0], "", "stringToNodeID"); ok && len(c.Args) == 1 && p.src(c.Args[0]) == "l" && len(s.Lhs) == 2 {
+					ns := lhsNames(s)
+					nodeVar, nodeErr = ns[0], ns[1]
+					continue
+				}
 				if _, ok := isCall(s.Rhs[0], "", "endingToOctetString"); ok && len(s.Lhs) == 2 {
 					ns := lhsNames(s)
 					endVar, endErr, endKind = ns[0], ns[1], "octet"
@@ -161,6 +213,10 @@ func (p *pkgInfo) parsePlanOf(fd *ast.FuncDecl, depth int) ([]tstep, bool) {
 					case uintVar != "" && rhs == fmt.Sprintf("uint%d(%s)", uintBits, uintVar):
 						out = append(out, tstep{Kind: "uint", Bits: uintBits, Field: f})
 						uintVar = ""
+						continue
+					case nodeVar != "" && rhs == nodeVar:
+						out = append(out, tstep{Kind: "nodeid", Field: f})
+						nodeVar = ""
 						continue
 					case nameVar != "" && rhs == nameVar:
 						out = append(out, tstep{Kind: "name", Field: f})
@@ -227,7 +283,7 @@ func (p *pkgInfo) parsePlanOf(fd *ast.FuncDecl, depth int) ([]tstep, bool) {
 				if _, ok := s.Body.List[0].(*ast.ReturnStmt); ok {
 					cond := p.src(s.Cond)
 					// (a lexer-error token carries a message, never digits: `e != nil` alone rejects it too)
-					if (uintErr != "" && (cond == uintErr+"!=nil||l.err" || cond == uintErr+"!=nil")) || (nameOk != "" && cond == "l.err||!"+nameOk) || (endErr != "" && cond == endErr+"!=nil") {
+					if (uintErr != "" && (cond == uintErr+"!=nil||l.err" || cond == uintErr+"!=nil")) || (nameOk != "" && cond == "l.err||!"+nameOk) || (endErr != "" && cond == endErr+"!=nil") || (nodeErr != "" && cond == nodeErr+"!=nil||l.err") {
 						continue
 					}
 				}
@@ -284,7 +340,7 @@ func (p *pkgInfo) parsePlanOf(fd *ast.FuncDecl, depth int) ([]tstep, bool) {
 			return nil, false
 		}
 	}
-	if uintVar != "" || nameVar != "" || endVar != "" || rawTok != "" || strTok != "" {
+	if uintVar != "" || nameVar != "" || endVar != "" || rawTok != "" || strTok != "" || nodeVar != "" {
 		return nil, false
 	}
 	return out, true
@@ -324,6 +380,12 @@ func (p *pkgInfo) fieldBits(typ, field string) int {
 
 // printPlanOf flattens `rr.Hdr.String() + a + " " + b …` of a String method of struct typ.
 func (p *pkgInfo) printPlanOf(fd *ast.FuncDecl, typ string) ([]tstep, bool) {
+	if m := nodeStringRe.FindStringSubmatch(p.src(fd.Body)); m != nil {
+		// (*NID).String / (*L64).String: preference, then a 64-bit number as four groups of four hex digits
+		if bits := p.fieldBits(typ, m[1]); bits == 16 && p.fieldBits(typ, m[3]) == 64 {
+			return []tstep{{Kind: "uint", Bits: 16, Field: m[1]}, {Kind: "blank"}, {Kind: "hexgroups", Bits: 16, Group: 4, Sep: ':', Upper: m[2] == "X", Field: m[3]}}, true
+		}
+	}
 	if len(fd.Body.List) != 1 {
 		return nil, false
 	}
@@ -406,6 +468,16 @@ func (p *pkgInfo) printPlanOf(fd *ast.FuncDecl, typ string) ([]tstep, bool) {
 					out = append(out, tstep{Kind: "txtfirst", Field: fs[0]})
 					continue
 				}
+			}
+		}
+		if c, ok := isCall(l, "", "euiToString"); ok && len(c.Args) == 2 && rrField(c.Args[0]) != "" {
+			switch p.src(c.Args[1]) {
+			case "48":
+				out = append(out, tstep{Kind: "hexgroups", Bits: 12, Group: 2, Sep: '-', Field: rrField(c.Args[0])})
+				continue
+			case "64":
+				out = append(out, tstep{Kind: "hexgroups", Bits: 16, Group: 2, Sep: '-', Field: rrField(c.Args[0])})
+				continue
 			}
 		}
 		if c, ok := isCall(l, "", "sprintTxtOctet"); ok && len(c.Args) == 1 && rrField(c.Args[0]) != "" {
